@@ -12,7 +12,7 @@ ENGINES = [dict(name='netio', c_sources=['netio_h.c'], extract='Extract/Extract_
                 accepts=lambda c: c.startswith('aa ')),
            dict(name='replysites', c_sources=['replysites_h.c', 'replysites_real.c', 'replysites_filters.c', 'replysites_owfat.c'],
                 extract='Extract/Extract_replysites.v', driver='replysites_driver.ml', libs=('-lowfat', '-lssl', '-lcrypto'),
-                accepts=lambda c: c[:3] in ('c1 ', 'c2 ', 'c3 '))]
+                accepts=lambda c: c[:3] in ('c1 ', 'c2 ', 'c3 ', 'c4 ', 'c5 ', 'c6 '))]
 RULE = ('engine netio: cases = net_writen argument vectors: s[0] from the reply templates found in qsmtpd/**, 1-4 embedded strings of '
         'length 0..4096 with blanks none / every k-th / clustered at offsets 495..515 and 1000..1020 / random; '
         'non-trivial = the implementation emitted at least two lines (folding happened); distinct by case text. '
@@ -237,6 +237,15 @@ def _nomail_case(rng):
     return 'c2 ' + R.hx(body)
 
 
+def _waitquit_case(rng):
+    """wait_for_quit(): 0..12 command lines, QUIT (any case) somewhere or not at all, the counter of bad commands preset"""
+    cmds = [b'NOOP', b'RSET', b'MAIL FROM:<a@example.org>', b'quit now', b'QUITX', b'DATA', b'x', b'HELO foo', b'']
+    lines = [rng.choice(cmds) for _ in range(rng.choice([0, 1, 2, 5, 6, 7, 8, 9, 12]))]
+    if rng.random() < 0.4:
+        lines.insert(rng.randrange(len(lines) + 1), rng.choice([b'QUIT', b'quit', b'Quit']))
+    return 'c4 ' + R.hx(_domain(rng, 255)) + ' %02x ' % rng.choice([0, 0, 0, 3, 5, 6, 7, 200]) + ' '.join(R.hx(l) if l else '-' for l in lines)
+
+
 def gen_sites(rng, tier):
     a = _sites()
     per = 45 if tier == 'quick' else 900
@@ -251,6 +260,8 @@ def gen_sites(rng, tier):
         out.append(_nomail_case(rng))
     for f in ('smtp_vrfy', 'smtp_noop', 'smtp_rset'):
         out.append('c3 ' + R.hx(f.encode()))
+    for _ in range(per):
+        out.append(_waitquit_case(rng))
     return out
 
 
@@ -273,7 +284,7 @@ def gen_cases(engine, rng, tier):
     return out
 
 def nontrivial(case, c_out):
-    if case[:3] in ('c1 ', 'c2 ', 'c3 '):
+    if case[:3] in ('c1 ', 'c2 ', 'c3 ', 'c4 ', 'c5 ', 'c6 '):
         # a reply with embedded text that had to be folded, or a multi-line literal
         return c_out.startswith('OK') and (len(c_out.split()) >= 3 or c_out.count('0d0a') >= 2)
     return c_out.startswith('OK') and len(c_out.split()) >= 3
